@@ -1,6 +1,7 @@
 package rules
 
 import (
+	"regexp"
 	"fmt"
 	"strings"
 
@@ -47,7 +48,7 @@ func runC30(c *eng.Ctx) {
 				notify = call
 			}
 		}
-		ok := unlock != nil && notify != nil && len(ul.Blocks) == 1 && eng.InstrIndex(unlock) < eng.InstrIndex(notify) && eng.Render(notify.(ssa.CallInstruction).Common().Args[0]) == "p0.tracker"
+		ok := unlock != nil && notify != nil && len(ul.Blocks) == 1 && eng.InstrIndex(unlock) < eng.InstrIndex(notify) && regexp.MustCompile(`^p0\.\w+$`).MatchString(eng.Render(notify.(ssa.CallInstruction).Common().Args[0])) // the lock's own (only) *Tracker field, whatever its name
 		c.Check("R2", "unlock-notifies", ul.Pos(), ok, "Unlock releases the mutex and then unconditionally notifies the lock's own tracker")
 	}
 	if uw := c.MustFunc("R2", statePkg, "TrackingLock.UnlockWithoutNotify"); uw != nil {
